@@ -261,7 +261,7 @@ fn run_c09(ctx: &mut Ctx) {
         }
     }
     // collision pools: full matrix
-    let pools = tier.pick(3, 150, 6000) / ctx.nworkers + 1;
+    let pools = tier.pick(3, 2500, 40000) / ctx.nworkers + 1;
     let mut rng = Rng::derive(ctx.seed, 0x0909, ctx.worker as u64);
     for _ in 0..pools {
         let pool = collision_pool(&mut rng, tier.pick(12, 28, 40), 200);
@@ -281,7 +281,7 @@ fn run_c09(ctx: &mut Ctx) {
             }
             let wa = TYPE_WORD_BITS[ta];
             for n in gen::boundary_lens(wa, TYPE_WORD_BITS[tb], TYPE_FIXED_CAP[ta], 200) {
-                if tier != Tier::Thorough && rng.below(3) != 0 {
+                if tier == Tier::Tiny && rng.below(3) != 0 {
                     continue;
                 }
                 let vals = gen::lattice_small(n, wa, &mut rng);
@@ -326,7 +326,7 @@ fn run_c10(ctx: &mut Ctx) {
                 let ok_lens: Vec<usize> = lens.iter().copied().filter(|l| *l >= sig).collect();
                 for l1 in &ok_lens {
                     for l2 in &ok_lens {
-                        if tier != Tier::Thorough && rng.below(3) != 0 && l1 != l2 {
+                        if tier == Tier::Tiny && rng.below(3) != 0 && l1 != l2 {
                             continue;
                         }
                         let mut b1 = v[..sig].to_vec();
@@ -353,7 +353,7 @@ fn run_c10(ctx: &mut Ctx) {
         if !ctx.mine() {
             continue;
         }
-        for _ in 0..tier.pick(1, 4, 20) {
+        for _ in 0..tier.pick(1, 12, 60) {
             let v = gen::random_bits(n, &mut rng);
             for v1 in VIAS_BASIC {
                 for v2 in VIAS_BASIC {
@@ -367,7 +367,7 @@ fn run_c10(ctx: &mut Ctx) {
         }
     }
     // all small values, all length pairs
-    let k = tier.pick(3, 6, 8);
+    let k = tier.pick(3, 8, 10);
     for ty in 0..NTYPES {
         if !ctx.mine() {
             continue;
